@@ -792,7 +792,9 @@ func extractFieldOrder(fields []Field) ([]string, error) {
 			if err != nil {
 				return nil, err
 			}
-			if fieldName != "" {
+			// For a function call fieldName is its first argument, while the
+			// output column of e.g. sum(v) or upper(s) is named by the expression
+			if fieldName != "" && extractFunctionName(field.Expression) == "" {
 				// If parsed field name (like string literal), use parsed name
 				fieldOrder = append(fieldOrder, fieldName)
 			} else {
